@@ -23,8 +23,8 @@ class CallsMixin:
         P = self.P
         k = base.k
         if k == "gamma":
-            return gamma(base.a[0], self._getattr_or_none(base.a[1], attr, env, node, fn),
-                         self._getattr_or_none(base.a[2], attr, env, node, fn))
+            return gamma(base.a[0], self._getattr_or_none(base.a[1], attr, env, node, fn, base.a[0]),
+                         self._getattr_or_none(base.a[2], attr, env, node, fn, un("not", base.a[0])))
         if k == "builtin":
             return T("builtin", base.a[0] + "." + attr)
         if k == "crcobj" and attr == "crcValue":
@@ -76,9 +76,11 @@ class CallsMixin:
                 return base
         return T("bound?", attr, base)
 
-    def _getattr_or_none(self, side, attr, env, node, fn):
+    def _getattr_or_none(self, side, attr, env, node, fn, cond=None):
         if is_const(side, None):
-            self.log_raise("AttributeError", env, node, kind="attr")
+            # the None alternative is taken exactly under `cond`; the raise record carries it so that
+            # feasibility can be decided against the guards in force
+            self.log_raise("AttributeError", env, node, kind="attr", cond=cond)
             return NONE
         return self.getattr(side, attr, env, node, fn)
 
@@ -370,14 +372,14 @@ class CallsMixin:
             elif n in kw:
                 out[n] = kw.pop(n)
             elif n in defaults:
-                out[n] = self.default_value(defaults[n], f)
+                out[n] = self.default_value(defaults[n], f, env)
             else:
                 self.unsupported(f"missing arg {n} for {f.qual}", node)
         for x, d in zip(a.kwonlyargs, a.kw_defaults):
             if x.arg in kw:
                 out[x.arg] = kw.pop(x.arg)
             elif d is not None:
-                out[x.arg] = self.default_value(d, f)
+                out[x.arg] = self.default_value(d, f, env)
             else:
                 self.unsupported(f"missing kwonly {x.arg}", node)
         if a.vararg is not None:
@@ -386,11 +388,17 @@ class CallsMixin:
             self.unsupported(f"unexpected kwargs {list(kw)} for {f.qual}", node)
         return out, anns
 
-    def default_value(self, expr, f):
+    def default_value(self, expr, f, env=None):
+        """default argument expression; objects it constructs live in the caller's heap"""
         self.quiet += 1
         try:
             e = Env()
-            return self.ev(expr, e, f.module, f)
+            if env is not None:
+                e.heap = env.heap
+            v = self.ev(expr, e, f.module, f)
+            if env is not None:
+                env.heap = e.heap
+            return v
         finally:
             self.quiet -= 1
 
